@@ -417,16 +417,27 @@ Proof.
   unfold M_apply_series. rewrite reorder_index_ok; [reflexivity|apply S_order_lt|exact Hh].
 Qed.
 
-(* Series.sort_values: the key result (or the values) must have the Series' length -- the code does not check *)
+(* Series.sort_values, for EVERY key result: sorted by it when it has the Series' length, RuntimeError otherwise.
+   (first hypothesis: the Series itself is well formed -- as many values as labels) *)
 Theorem series_sort_values_refines : forall s keyres asc,
+  length (os_values (ss_obs s)) = length (os_index (ss_obs s)) ->
   let v := match keyres with Some c => hd [] (cfs_keys c) | None => os_values (ss_obs s) end in
-  length v = length (os_index (ss_obs s)) ->
   hier_ok (ss_idepth s) (os_index (ss_obs s)) (S_order [v] (length (os_index (ss_obs s))) asc) = true ->
-  M_series_sort_values good_params s keyres asc = Ok (S_series_sort (ss_obs s) [v] asc).
+  M_series_sort_values good_params s keyres asc =
+  if (length v =? length (os_index (ss_obs s)))%nat then Ok (S_series_sort (ss_obs s) [v] asc)
+  else Err "RuntimeError".
 Proof.
-  intros s keyres asc v Hl Hh. unfold M_series_sort_values. fold v. cbn [good_params p_ssv_desc].
-  rewrite np_argsort_spec, Hl, finish_S_order. unfold M_apply_series.
-  rewrite reorder_index_ok; [reflexivity|apply S_order_lt|exact Hh].
+  intros s keyres asc Hwf v Hh. unfold M_series_sort_values. cbn [good_params p_ssv_desc p_ssv_len_check].
+  assert (G : forall w, length w = length (os_index (ss_obs s)) ->
+              hier_ok (ss_idepth s) (os_index (ss_obs s)) (S_order [w] (length (os_index (ss_obs s))) asc) = true ->
+              M_apply_series s (finish true asc (np_argsort w)) = Ok (S_series_sort (ss_obs s) [w] asc)).
+  { intros w Hl Hw. rewrite np_argsort_spec, Hl, finish_S_order. unfold M_apply_series.
+    rewrite reorder_index_ok; [reflexivity|apply S_order_lt|exact Hw]. }
+  destruct keyres as [c|]; subst v; cbn [andb].
+  - rewrite Hwf. destruct (length (hd [] (cfs_keys c)) =? length (os_index (ss_obs s)))%nat eqn:E; cbn [negb].
+    + apply G; [apply Nat.eqb_eq; exact E|exact Hh].
+    + reflexivity.
+  - rewrite <- Hwf at 1. rewrite Nat.eqb_refl. apply G; [exact Hwf|exact Hh].
 Qed.
 
 Theorem index_sort_refines : forall depth labels asc,
